@@ -149,9 +149,14 @@ func (a *Activation) inlineCall(st *State, callee *ssa.Function, args []Val, bin
 	sub.name = a.name // obligations inside inlined bodies are attributed to the verified function
 	sub.counter = a.counter
 	sub.frameOwner = a.owner()
+	sub.specVars = map[string]SVal{}
 	for i, p := range callee.Params {
 		if i < len(args) {
 			sub.env[p] = args[i]
+			// entry values of the parameters, as x0, for the callee's loop invariants
+			if args[i].T.S != "" {
+				sub.specVars[paramNames(callee)[i]+"0"] = SVal{T: args[i].T, Ty: p.Type()}
+			}
 		}
 	}
 	for i, fv := range callee.FreeVars {
